@@ -54,6 +54,15 @@ func c06Locs(i int) []string {
 	return []string{b + "/saml/acs", b + "/saml/acs2", b + "/index.php?option=com_saml&task=acs", b + "/alt/acs"}
 }
 
+// c06ExtLocs: registered locations that are another registered location (the first or the third of c06Locs) followed by more text -
+// a further path segment, a trailing slash, a query string, a matrix parameter, a further query parameter, and an extension of an
+// extension. Two endpoints whose locations relate like that are two endpoints all the same.
+func c06ExtLocs(i int) []string {
+	b := c06SPBase(i)
+	return []string{b + "/saml/acs/partner", b + "/saml/acs/", b + "/saml/acs?tenant=7", b + "/saml/acs;v=2", b + "/saml/acs/partner/eu",
+		b + "/index.php?option=com_saml&task=acs&tenant=2", b + "/saml/acs#return"}
+}
+
 type c06ACS struct {
 	B   string `json:"b"`
 	Loc string `json:"loc"`
@@ -138,6 +147,9 @@ type c06Step struct {
 	// ReqPolicy: the request's NameIDPolicy/@Format ("-": the SP leaves its AuthnNameIDFormat unset): the requester's wish; how the session's
 	// principal is labelled is a matter of the session
 	ReqPolicy string `json:"request_nameid_policy,omitempty"`
+	// IdPSubMsUs: the IdP's clock stands this many microseconds past a whole millisecond (0: on one). The instants a response states
+	// have millisecond resolution; which neighbouring millisecond states the moment is the IdP's choice, made once per response
+	IdPSubMsUs int64 `json:"idp_clock_sub_ms_us,omitempty"`
 }
 
 // ---------------------------------------------------------------- registry / sessions
@@ -320,6 +332,9 @@ func c06GenSP(g *Rng, i int) c06SP {
 	}
 	nd := 1 + g.PickW(7, 3)
 	locs := c06Locs(i)
+	// some providers register endpoints whose locations extend one another
+	nested := g.Bool(0.4)
+	ext := c06ExtLocs(i)
 	perm := []int{0, 1, 2, 3, 4, 5, 6, 7, 8}
 	for j := len(perm) - 1; j > 0; j-- {
 		q := g.Intn(j + 1)
@@ -337,6 +352,9 @@ func c06GenSP(g *Rng, i int) c06SP {
 			e := c06ACS{B: []string{"post", "redirect", "artifact", "unknown"}[g.PickW(14, 2, 2, 1)], Loc: locs[g.PickW(4, 3, 2, 2)], Idx: perm[next]}
 			if g.Bool(0.25) {
 				e.Idx = next // many real deployments number positionally
+			}
+			if nested && g.Bool(0.55) {
+				e.Loc = ext[g.Intn(len(ext))]
 			}
 			if g.Bool(0.12) {
 				e.RLoc = Pick(g, "https://collector.example.net/slo-return", locs[len(locs)-1]+"/return")
@@ -505,6 +523,10 @@ func genEgress(g *Rng, tier string) *Plan {
 		if g.Bool(0.25) {
 			st.SPZoneMin = Pick(g, 120, -300, 330, -570, 840)
 		}
+		if g.Bool(0.3) {
+			// the IdP's clock is not on a millisecond boundary (no real clock ever is); biased to the middle and the ends of the millisecond
+			st.IdPSubMsUs = Pick(g, int64(1), 250, 499, 500, 501, 730, 999)
+		}
 		if st.Kind != "lib" && g.Bool(0.08) {
 			st.ClientGone = true
 		}
@@ -636,6 +658,23 @@ func c06Verify(el *etree.Element, cert *x509.Certificate) (string, error) {
 func c06ParseTime(s string) (time.Time, bool) {
 	t, err := time.Parse(c06TimeForm, s)
 	return t, err == nil
+}
+
+// c06SameMs: got states want at millisecond resolution - it is want itself when want is a whole millisecond, else one of the two
+// whole milliseconds around it.
+func c06SameMs(got, want time.Time) bool {
+	d := got.Sub(want)
+	return d > -time.Millisecond && d < time.Millisecond
+}
+
+// c06FirstAt is the position (document order) of the first registered endpoint at loc.
+func c06FirstAt(m *c06SP, loc string) int {
+	for n, a := range c06Flatten(m) {
+		if a.Loc == loc {
+			return n
+		}
+	}
+	return -1
 }
 
 func c06Short(method string) string {
@@ -840,7 +879,8 @@ func execEgress(t *testing.T, p *Plan) *Result {
 		if desc >= 0 {
 			exp.encDesc = meta.Descs[desc].EncKey
 		}
-		exp.issuance = time.Now().Add(ms(st.IdPSkewMs))
+		idpSkew := ms(st.IdPSkewMs) + time.Duration(st.IdPSubMsUs)*time.Microsecond
+		exp.issuance = time.Now().Add(idpSkew)
 		postable := false
 		allPost := len(exp.selected) > 0
 		for _, a := range exp.selected {
@@ -858,7 +898,7 @@ func execEgress(t *testing.T, p *Plan) *Result {
 		retried := false
 		code := 0
 		pan := any(nil)
-		at(ms(st.IdPSkewMs), func() {
+		at(idpSkew, func() {
 			pan = guard(func() {
 				switch st.Kind {
 				case "sso", "idp_initiated":
@@ -915,6 +955,10 @@ func execEgress(t *testing.T, p *Plan) *Result {
 		})
 		head := fmt.Sprintf("step %d %s %s ask=%s sp%d sess%d clock=%s key=%s method=%s chain=%d reg=%s case=%v enc=%s select(%s)=%s", si, st.Kind, st.Binding, st.Ask, st.SP, st.Session, st.Clock,
 			k.KeyMode, c06Short(k.SigMethod), k.Intermediates, k.Registry, st.IssuerCase, exp.encDesc, exp.mode, c06Set(exp.selected))
+		if st.IdPSubMsUs != 0 {
+			head += fmt.Sprintf(" idp-clock=+%dus past a millisecond", st.IdPSubMsUs)
+			res.fire("idp-clock-between-milliseconds")
+		}
 		if st.Clock != "same-instant" {
 			res.fire("delay")
 		}
@@ -990,6 +1034,12 @@ func execEgress(t *testing.T, p *Plan) *Result {
 		if is := c06ChildNS(root, "urn:oasis:names:tc:SAML:2.0:assertion", "Issuer"); is == nil || is.Text() != c06IdPEntity {
 			return bad("wrong-scope", "response/issuer", c06IdPEntity, c06Text(is), "")
 		}
+		// the moment the response says it was issued at: the IdP's clock, to the millisecond (either neighbouring one when the clock
+		// stands between two)
+		respIssued, ok := c06ParseTime(root.SelectAttrValue("IssueInstant", ""))
+		if !ok || !c06SameMs(respIssued, exp.issuance) {
+			return bad("wrong-moment", "response/issue-instant", "issuance", c06Rel(respIssued, ok, exp.issuance, k), "the response's IssueInstant is not the moment of issuance")
+		}
 		algo, err := c06Verify(root, idpKey.Cert)
 		if err != nil {
 			return bad("signature", "response/signature/"+c06SigErr(err), "enveloped signature verifying under the IdP certificate", "invalid", "")
@@ -1033,6 +1083,10 @@ func execEgress(t *testing.T, p *Plan) *Result {
 		if is := asEl.SelectElement("Issuer"); is == nil || is.Text() != c06IdPEntity {
 			return bad("wrong-scope", "assertion/issuer", c06IdPEntity, c06Text(is), "")
 		}
+		asIssued, ok := c06ParseTime(asEl.SelectAttrValue("IssueInstant", ""))
+		if !ok || !c06SameMs(asIssued, exp.issuance) {
+			return bad("wrong-moment", "assertion/issue-instant", "issuance", c06Rel(asIssued, ok, exp.issuance, k), "the assertion's IssueInstant is not the moment of issuance")
+		}
 		sub := asEl.SelectElement("Subject")
 		if sub == nil {
 			return bad("wrong-scope", "assertion/no-subject", "Subject", "none", "")
@@ -1072,15 +1126,37 @@ func execEgress(t *testing.T, p *Plan) *Result {
 			return bad("wrong-scope", "confirmation/in-response-to", c06IRT(exp.requestID), c06IRT(got), "")
 		}
 		wantNOA := exp.issuance.Add(ms(k.MaxIssueDelayMs))
-		if got, ok := c06ParseTime(bearer.SelectAttrValue("NotOnOrAfter", "")); !ok || !got.Equal(wantNOA) {
-			return bad("wrong-moment", "confirmation/not-on-or-after", "issuance+MaxIssueDelay", c06Rel(got, ok, exp.issuance, k), "")
+		gotNOA, ok := c06ParseTime(bearer.SelectAttrValue("NotOnOrAfter", ""))
+		if !ok || !c06SameMs(gotNOA, wantNOA) {
+			return bad("wrong-moment", "confirmation/not-on-or-after", "issuance+MaxIssueDelay", c06Rel(gotNOA, ok, exp.issuance, k), "")
+		}
+		// ... and by the document's own account of its moment: a receiver has nothing but the document, and the tolerance is a whole
+		// number of milliseconds, so the distance is exact whichever millisecond the IdP took for a clock between two
+		for _, stated := range []struct {
+			who string
+			t   time.Time
+		}{{"response", respIssued}, {"assertion", asIssued}} {
+			if !gotNOA.Equal(stated.t.Add(ms(k.MaxIssueDelayMs))) {
+				return bad("wrong-moment", "confirmation/not-on-or-after/by-"+stated.who+"-issue-instant", "the "+stated.who+"'s IssueInstant+MaxIssueDelay",
+					c06Rel(gotNOA, true, stated.t, k)+" (relative to the "+stated.who+"'s IssueInstant)", fmt.Sprintf("the confirmation expires %d ms after the %s's IssueInstant, MaxIssueDelay is %d ms", gotNOA.Sub(stated.t).Milliseconds(), stated.who, k.MaxIssueDelayMs))
+			}
 		}
 		cond := asEl.SelectElement("Conditions")
 		if cond == nil {
 			return bad("wrong-scope", "conditions/missing", "Conditions", "none", "")
 		}
-		if got, ok := c06ParseTime(cond.SelectAttrValue("NotBefore", "")); !ok || got.Before(exp.issuance.Add(-ms(k.MaxClockSkewMs))) {
-			return bad("wrong-moment", "conditions/not-before", ">= issuance-MaxClockSkew", c06Rel(got, ok, exp.issuance, k), "")
+		gotNB, ok := c06ParseTime(cond.SelectAttrValue("NotBefore", ""))
+		if !ok || !gotNB.After(exp.issuance.Add(-ms(k.MaxClockSkewMs)-time.Millisecond)) {
+			return bad("wrong-moment", "conditions/not-before", ">= issuance-MaxClockSkew", c06Rel(gotNB, ok, exp.issuance, k), "")
+		}
+		for _, stated := range []struct {
+			who string
+			t   time.Time
+		}{{"response", respIssued}, {"assertion", asIssued}} {
+			if gotNB.Before(stated.t.Add(-ms(k.MaxClockSkewMs))) {
+				return bad("wrong-moment", "conditions/not-before/by-"+stated.who+"-issue-instant", ">= the "+stated.who+"'s IssueInstant-MaxClockSkew",
+					c06Rel(gotNB, true, stated.t, k)+" (relative to the "+stated.who+"'s IssueInstant)", fmt.Sprintf("the Conditions open %d ms before the %s's IssueInstant, MaxClockSkew is %d ms", stated.t.Sub(gotNB).Milliseconds(), stated.who, k.MaxClockSkewMs))
+			}
 		}
 		nAud := 0
 		for _, ar := range cond.SelectElements("AudienceRestriction") {
@@ -1147,6 +1223,23 @@ func execEgress(t *testing.T, p *Plan) *Result {
 			res.probe("selected-endpoint-differs-from-request-url")
 			if exp.reqURL != "" {
 				res.probe("selected-by-index-while-request-names-another-url")
+			}
+		}
+		if exp.mode == "url" {
+			for n, a := range c06Flatten(meta) {
+				if a.Loc != action && strings.HasPrefix(action, a.Loc) {
+					res.probe("request-url-extends-another-registered-location")
+					if n < c06FirstAt(meta, action) {
+						res.probe("request-url-extends-a-location-registered-before-it")
+					}
+					break
+				}
+			}
+		}
+		if st.IdPSubMsUs != 0 {
+			res.probe("emission-with-idp-clock-between-milliseconds")
+			if st.IdPSubMsUs >= 500 {
+				res.probe("emission-with-idp-clock-in-second-half-of-a-millisecond")
 			}
 		}
 		if reqAttr {
@@ -1272,6 +1365,9 @@ func simplifyEgress(p *Plan) []*Plan {
 		if st.DelayMs != 0 {
 			mod(func(s *c06Step) { s.DelayMs, s.Clock = 0, "simplified" })
 		}
+		if st.IdPSubMsUs != 0 {
+			mod(func(s *c06Step) { s.IdPSubMsUs = 0 })
+		}
 		if st.Binding == "post" {
 			mod(func(s *c06Step) { s.Binding = "redirect" })
 		}
@@ -1327,11 +1423,12 @@ func simplifyEgress(p *Plan) []*Plan {
 func init() {
 	register(&Profile{
 		ID: "C06", Name: "idp-egress", Level: "exploration",
-		Rule: "each run: one library IdP configured with {private key | crypto.Signer wrapper} x signature method {unset, rsa-sha1/256/384/512} x 0-2 intermediates, a registry (exact or case-insensitive lookup) of 1-3 hand-built SP metadata documents (1-2 SPSSODescriptors, 1-4 ACS endpoints with POST/Redirect/Artifact/unknown bindings, non-positional unique indices, isDefault flags, repeated locations, attribute-consuming services with requested attributes, key descriptor encryption/unspecified/signing/none) and 2-3 sessions whose every string is a unique marker; 1-4 emissions via ServeSSO, the NewIdpAuthnRequest..PostBinding sequence, or ServeIDPInitiated, where the real SP's request names its ACS by registered URL, by index, by index plus a disagreeing URL, or not at all, in either binding, and the IdP's skewed clock sits {at, 1ms/half/just-inside MaxIssueDelay after, around MaxClockSkew after, before} the request's IssueInstant with tolerances drawn per run; every emitted form is parsed with an HTML5 parser and checked field by field against the model, signatures with the monitor's own goxmldsig validation context, encrypted assertions after decrypting with the SP key; non-trivial = the run contains at least one emission (every check then discriminates between the model's values and any other); distinct = distinct abstract event log (entry, binding, ask mode, clock class, signing config, registry lookup, encryption, selected endpoint, outcome); registered ACS elements may carry a ResponseLocation attribute; with an external signer the n-th signing operation of an emission may fail, after which the application asks the same request object for its form again (whatever that emits is checked like any emission); requests may carry a Subject naming a principal and sessions may have no NameID (the assertion names the session's principal only)",
+		Rule: "each run: one library IdP configured with {private key | crypto.Signer wrapper} x signature method {unset, rsa-sha1/256/384/512} x 0-2 intermediates, a registry (exact or case-insensitive lookup) of 1-3 hand-built SP metadata documents (1-2 SPSSODescriptors, 1-4 ACS endpoints with POST/Redirect/Artifact/unknown bindings, non-positional unique indices, isDefault flags, repeated locations, attribute-consuming services with requested attributes, key descriptor encryption/unspecified/signing/none) and 2-3 sessions whose every string is a unique marker; 1-4 emissions via ServeSSO, the NewIdpAuthnRequest..PostBinding sequence, or ServeIDPInitiated, where the real SP's request names its ACS by registered URL, by index, by index plus a disagreeing URL, or not at all, in either binding, and the IdP's skewed clock sits {at, 1ms/half/just-inside MaxIssueDelay after, around MaxClockSkew after, before} the request's IssueInstant with tolerances drawn per run; every emitted form is parsed with an HTML5 parser and checked field by field against the model, signatures with the monitor's own goxmldsig validation context, encrypted assertions after decrypting with the SP key; non-trivial = the run contains at least one emission (every check then discriminates between the model's values and any other); distinct = distinct abstract event log (entry, binding, ask mode, clock class, signing config, registry lookup, encryption, selected endpoint, outcome); registered ACS elements may carry a ResponseLocation attribute; with an external signer the n-th signing operation of an emission may fail, after which the application asks the same request object for its form again (whatever that emits is checked like any emission); requests may carry a Subject naming a principal and sessions may have no NameID (the assertion names the session's principal only); registered locations may extend one another (a further path segment, a trailing slash, a query string, a matrix parameter, a further query parameter, a fragment) and a request may name any of them by URL; the IdP's clock may stand between two milliseconds (1-999 us past one), the IssueInstant of response and assertion being compared with the clock and every window with both of them",
 		Gen:  genEgress, Exec: execEgress, Simplify: simplifyEgress,
 		RunsQuick: 4000, RunsThorough: 300000,
 		Assumptions: []string{
-			"issuance = the IdP's clock when it receives the request; instants are whole milliseconds",
+			"issuance = the IdP's clock when it receives the request; the instants a response states have millisecond resolution, so for a clock standing between two milliseconds either neighbour states the moment",
+			"the IssueInstant of the response and of the assertion state the moment of issuance; the distances the statement names (MaxClockSkew, MaxIssueDelay: whole milliseconds) hold exactly against what the document itself gives as its moment, at both levels",
 			"signature method unset means rsa-sha1 (the documented default)",
 			"the selected endpoint is what the C05 chain yields (requested index, else requested URL, else default/first browser-binding); only requests that name registered things are generated here",
 			"an endpoint that is selected but is not HTTP-POST yields no emission (not an alarm); a selected HTTP-POST endpoint must be answered",
